@@ -417,7 +417,7 @@ class ExprGen:
         self.in_fn = 0
         self.free_ok = True   # may free (environment) names be read here?
         self.block_mode = False  # statement blocks: tame string constants, comprehension variables may reuse free names
-        self.reused = set()
+        self.reused = []  # one entry per comprehension whose variable reuses a free name
 
     # -- drawing helpers ----------------------------------------------------------------
     def n(self, k):
@@ -943,8 +943,11 @@ class ExprGen:
                         # inside a function, the comprehension variable has the name of a free variable that the function
                         # reads elsewhere (at the top level of a block test_ast.py::test_locate_identifiers_9 pins that a
                         # comprehension variable counts as assigned by the block, so that is not generated)
-                        t = self.pick(self.env["int"])
-                        self.reused.add(t)
+                        # "ir" is read nowhere else than right after the comprehension, in the same function: CPython
+                        # 3.12.1 mis-scopes a name that is both an inlined comprehension variable and a free variable
+                        # of a function nested next to it (NameError "cannot access free variable"; 3.11 is right)
+                        t = "ir"
+                        self.reused.append(t)
                     target = _store(t)
                     it = self.gen("list", d - 1, sc2, False) if self.chance(70) else _call("range", [_const(self.n(4))])
                     new = {t: "int"}
@@ -1064,6 +1067,7 @@ def draw_envspec(draw, flags):
     types_["tuple"] = ["ta"]
     spec["za"] = ["@set", [n(10) for _ in range(1 + n(4))]]
     types_["set"] = ["za"]
+    spec["ir"] = n(10)  # only ever read by BlockGen.read_reused (see ExprGen.comp_gens)
     spec["ba"] = bool(n(2))
     types_["bool"] = ["ba"]
     spec["ga"] = "@Echo"
@@ -1160,13 +1164,13 @@ class BlockGen:
     def block(self):
         sc = {}
         body = self.stmts(sc, 2, 2 + self.x.n(5), loop=False, fn=False)
-        body += self.read_reused(sc, set())
+        body += self.read_reused(sc, 0)
         outs = sorted(k for k in sc if k not in self.deleted)
         return body, outs
 
     def read_reused(self, sc, before):
         out = []
-        for nm in sorted(self.x.reused - before):
+        for nm in sorted(set(self.x.reused[before:])):
             if nm not in sc and self.x.free_ok:
                 v = self.new()
                 self.x.used.add(nm)
@@ -1324,9 +1328,6 @@ class BlockGen:
         x = self.x
         ty = x.pick(["list", "set", "dict", "int"])
         v = self.new()
-        before = set(x.reused)
-        node = {"list": x.g_list, "set": x.g_set, "dict": x.g_dict, "int": x.g_int}[ty]
-        # force the comprehension alternative by retrying a few draws
         gens, sc2 = x.comp_gens(2, dict(sc))
         with x.comp_body():
             elt = x.gen("int", 2, sc2)
@@ -1492,7 +1493,7 @@ class BlockGen:
             if present:
                 self.feats.add("par:" + kind)
         ret_ty = x.pick(["int", "str", "list", "tuple", "int"])
-        before = set(x.reused)
+        before = len(x.reused)
         keep_outer = self.outer
         self.outer = set(sc) | set(add)
         with x.fn_body():
